@@ -48,7 +48,9 @@ class C16(Prop):
                 d1 = base
                 d2 = d1
                 for p in masked:
-                    d2 = setp(d2, p, r.choice(["zzz", "q", "v2"]))
+                    # (also scalars written in another STYLE than the one they replace - quoted where the first input is plain:
+                    # what is stored for a masked path may not depend on how the masked value was spelled)
+                    d2 = setp(d2, p, r.choice(["zzz", "q", "v2", '"123"', "'x y'", '""', '"true"', '"a: b"', '"x #y"', "123", "true", "null", "~"]))
                 d3 = setp(d1, r.choice(unmasked), "changed")
                 api = "yaml"
                 docs = [dump(d1), dump(d2), dump(d3)]
